@@ -1982,6 +1982,9 @@ class StreamToQueue(StreamResult):
         """Adjust route_code on the way through."""
         if route_code is None:
             return self.routing_code
+        if self.routing_code is None:
+            # Nothing to prefix (ConcurrentStreamTestSuite allows None).
+            return route_code
         return self.routing_code + "/" + route_code
 
 
